@@ -65,6 +65,7 @@ type Encoder struct {
 	symMemo     map[*Term]map[*Term]bool
 	niTerms     []*Term
 	loopRefSyms []*Term
+	tiFacts     map[*Term]bool
 	specPure    int
 	cbc         map[*Term]*cbcGhost
 	randDraws   int
@@ -83,7 +84,7 @@ type inputVal struct {
 func newEncoder(w *World, fn *ssa.Function) *Encoder {
 	e := &Encoder{w: w, c: NewCtx(), sorts: map[string]*Sort{}, top: fn, warnings: map[string]bool{}, trusted: map[string]bool{},
 		inlined: map[string]bool{}, unmodelled: map[string]bool{}, idCount: map[string]int{},
-		candDropped: map[string]bool{}, strict: true, closedWorld: map[string]bool{}, globals: map[*ssa.Global]*Term{}, ufAxiomSeen: map[*Term]bool{}}
+		candDropped: map[string]bool{}, strict: true, closedWorld: map[string]bool{}, tiFacts: map[*Term]bool{}, globals: map[*ssa.Global]*Term{}, ufAxiomSeen: map[*Term]bool{}}
 	e.A0 = e.c.Sym("A0", IntS)
 	e.assumptions = append(e.assumptions, e.c.IntLe(e.c.Int(0), e.A0))
 	e.guard = e.c.True()
@@ -1033,7 +1034,7 @@ func (e *Encoder) binopVals(fr *frame, op token.Token, a, b *SVal, ta, tb, tr ty
 	if a.T.S.K == SReal {
 		if a.Rat != nil && b.Rat != nil && b.Rat.Num.IsLit() && b.Rat.Den == 1 && b.Rat.Num.SInt() > 0 && op == token.QUO {
 			k := b.Rat.Num.SInt()
-			if a.Rat.Den < (1<<40) && k < (1<<20) {
+			if a.Rat.Den < (1<<50) && k < (1<<12) {
 				r := mk(c.RealBin("/", a.T, b.T))
 				r.Rat = &ratVal{Num: a.Rat.Num, Den: a.Rat.Den * k}
 				return r
